@@ -490,6 +490,10 @@ def sql_expr(e):
         return f"(not {sql_expr(e[1])})"
     if k == "neg":
         return f"(- {sql_expr(e[1])})"
+    if k == "castb":
+        return f"cast({sql_expr(e[1])} as boolean)"
+    if k == "widen":            # an integer of another width: the same value
+        return f"cast({sql_expr(e[1])} as {e[2]})"
     if k == "isnull":
         return f"({sql_expr(e[1])} is {'not ' if e[2] else ''}null)"
     if k == "case":
@@ -640,6 +644,10 @@ def res_expr(e, scopes, tables):
         return ["not", res_expr(e[1], scopes, tables)]
     if k == "neg":
         return ["neg", res_expr(e[1], scopes, tables)]
+    if k == "castb":
+        return ["castb", res_expr(e[1], scopes, tables)]
+    if k == "widen":
+        return res_expr(e[1], scopes, tables)
     if k == "isnull":
         return ["notnull" if e[2] else "isnull", res_expr(e[1], scopes, tables)]
     if k == "case":
@@ -689,12 +697,14 @@ def enc_db(db):
 
 
 # ----------------------------------------------------------------------------- DDL / DML text
-def setup_sql(db, tables, pk=None, notnull=()):
+def setup_sql(db, tables, pk=None, notnull=(), coltypes=None):
+    """coltypes: {(table, column): 'bigint' | 'smallint'} -- integer columns of another width (the values, and so
+    the prescribed answers, are the same)"""
     out = []
     for t, cols in tables.items():
         defs = []
         for c, ty in cols:
-            d = f"{c} {'int' if ty == INT else 'varchar'}"
+            d = f"{c} {(coltypes or {}).get((t, c), 'int') if ty == INT else 'varchar'}"
             if pk and pk.get(t) == c:
                 d += " primary key"
             defs.append(d)
